@@ -12,17 +12,18 @@ Spec        : Commandline.tla -- one operator per stage of `Tool(parser)(argv)`:
               reading a pending attribute collapses it), final checks in namespace order, main function;
               every exception class x stage is mapped to return value / SystemExit / propagated exception,
               error line and traceback (--debug).  The namespace of a Tool persists across calls.
-MC          : Commandline_MC -- every call history (tiny: 3 calls, second: 1 / 2 calls; every command line of the
-              universe, every (hook, exception class) failure) hook by hook; invariants AtMostOnce, PriorityOrder,
-              StageOrder, ConfigOnce, ExplicitWins, FinalsPopped, PreOnce, Cached, OutcomeTotal + action properties
-              FailStops, OnlyAfter, PreGrows; vacuity guards (GUARDS): the design with an unguarded
-              bind_delayed_default, with the config default at a priority above the domain's and with pre-parse
-              hooks that are not wiped must each be refuted.  (The larger universe `main` is exercised through
-              simulation + replay only: its exhaustive exploration does not fit the time budget.)
+MC          : Commandline_MC -- every call history (tiny: 3 calls; second: 1 call quick / 2 calls thorough; main: 1 call,
+              thorough only; every command line of the universe, every (hook, exception class) failure) hook by
+              hook; invariants AtMostOnce, PriorityOrder, StageOrder, ConfigOnce, ExplicitWins, FinalsPopped, PreOnce,
+              Cached, OutcomeTotal + action properties FailStops, OnlyAfter, PreGrows; vacuity guards (GUARDS): the
+              design with an unguarded bind_delayed_default, with the config default at a priority above the
+              domain's and with pre-parse hooks that are not wiped must each be refuted.  Call histories of the
+              `main` universe longer than one call are exercised through simulation + replay only.
 spec -> code: Commandline_Sim (TLC -simulate) chooses call histories over the same universe file; each is run
               on a real pkgcore.util.commandline.Tool over real ArgumentParser objects whose bindings are
               recording callbacks (built by World below).
-code -> spec: seeded random universes (parser trees, priorities, read sets, name clashes between parent and
+code -> spec: hand-written shapes (FIXED: reset hook of a subcommand discarding an explicit root option, pending
+              domain default left by a failed call, one raw name bound by two subcommands) in every tier; seeded random universes (parser trees, priorities, read sets, name clashes between parent and
               child bindings) with random call histories; plus the real pquery / pmaint / pclean parsers with
               their delayed values, final checks and main functions wrapped by recorders (smoke: judged by the
               log-only clauses).
@@ -401,7 +402,9 @@ class World:
             except SystemExit as e:
                 out.update(kind="exit", code=e.code if isinstance(e.code, int) else -99)
             except Exception as e:  # noqa: BLE001 - what escapes the Tool is the observation (clause Outcome_exc)
-                out.update(kind="raise", code=0, exc=type(e).__name__)
+                # class family: NoDefaultConfigError & co. are argparse.ArgumentError subclasses
+                out.update(kind="raise", code=0,
+                           exc="ArgumentError" if isinstance(e, self.argparse.ArgumentError) else type(e).__name__)
         finally:
             errtxt = sys.stderr.getvalue()
             sys.stderr = old_err
@@ -518,6 +521,10 @@ def random_universe(r_):
                 prio_of[n] = (k, pr)
             elif prio_of[n][0] in ("ordered", "wipe"):
                 continue
+            elif prio_of[n][0] == "raw":
+                k, pr = prio_of[n]       # every binding of a raw name is raw at the same priority (read discipline)
+            elif k == "raw":
+                k = "delayed"
             binds.append(H(k, n, pr, reads=reads_for(level[n], pr) if k != "ordered" else reads_for(0, pr)))
         if r_.random() < 0.3:
             binds.append(H("wipe", "w" + pname, r_.choice([40, 50]), dels=r_.sample(["domain"] + pool, r_.randint(1, 2))))
@@ -569,6 +576,54 @@ def random_universe(r_):
         p["opts"] = [o for o in p["opts"] if o not in bad]
     doms = ["d1", "d2"][: r_.randint(1, 2)]
     return dict(cfg=True, dom=True, debug=r_.random() < 0.3, domains=doms, defdom=r_.choice(doms + ["-"]), parsers=parsers)
+
+
+def check_universe(uni):
+    """The read discipline of the carve-outs (a generator that leaves it is a machinery failure, never a verdict)."""
+    raw, never = {}, set()
+    for p in uni["parsers"]:
+        for h in p["binds"]:
+            if h["k"] == "raw":
+                raw[h["n"]] = max(raw.get(h["n"], 0), h["prio"])
+            if h["k"] in ("ordered", "wipe"):
+                never.add(h["n"])
+    for p in uni["parsers"]:
+        if never & set(p["opts"]):
+            raise tlc.MachineryError(f"universe outside the domain: option named like an ordered/wipe binding in {p['name']}")
+        for h in p["binds"]:
+            if never & set(h["reads"]):
+                raise tlc.MachineryError(f"universe outside the domain: {hook_id(p, h)} reads an ordered/wipe attribute")
+            if h["k"] in ("delayed", "raw", "ordered"):
+                for a in h["reads"]:
+                    if a in raw and h["prio"] <= raw[a]:
+                        raise tlc.MachineryError(f"universe outside the domain: {hook_id(p, h)} reads raw {a} of a later priority")
+
+
+# hand-written shapes that every tier must contain (each was once missed by the seeded generator of the quick tier)
+FIXED = [
+    # a subcommand's reset hook discards an attribute the root option stored; the subcommand's default applies again
+    (dict(cfg=True, dom=True, debug=False, domains=["d1"], defdom="d1", parsers=[
+        P("root", binds=[H("delayed", "a", 20, reads=["config"]), H("delayed", "b", 20, reads=["a"])], opts=["b", "x"]),
+        P("s1", sub=True, binds=[H("reset", "rs1", dels=["g", "b"]), H("delayed", "b", 10, reads=["config", "a"]),
+                                 H("final", "f1", reads=["domain"]), H("main", "ms1", reads=["b"])], opts=["a"]),
+        P("s2", sub=True, binds=[H("main", "ms2", reads=["b"])])]),
+     [[dict(sub="s1", ropts=[["b", "vb2"]])], [dict(sub="s2", ropts=[["b", "vb1"]]), dict(sub="s1", ropts=[["b", "vb2"], ["x", "vx"]])],
+      [dict(sub="s1", ropts=[["b", "vb2"]], fh="s1.ms1", fk="exit")]]),
+    # no default domain: a wipe hides it for s1; s2 fails in the delayed pass and leaves the pending default in the
+    # Tool's namespace; the next call collapses it while filling the root's defaults (escapes as ArgumentError subclass)
+    (dict(cfg=True, dom=True, debug=False, domains=["d1"], defdom="-", parsers=[
+        P("root", binds=[H("raw", "d", 1, reads=["config"]), H("ordered", "c", 50, reads=["domain"])], opts=["x"]),
+        P("s1", sub=True, binds=[H("wipe", "ws1", 50, dels=["c", "domain"]), H("final", "f2"), H("main", "ms1")]),
+        P("s2", sub=True, binds=[H("final", "f2"), H("main", "ms2", reads=["domain"])])]),
+     [[dict(sub="s1", cfgarg="file"), dict(sub="s2"), dict(sub="s1", ropts=[["x", "vx1"]])],
+      [dict(sub="s1"), dict(sub="s2", dom="d1"), dict(sub="s2")]]),
+    # one raw name bound by two subcommands, read by later priorities only
+    (dict(cfg=True, dom=True, debug=True, domains=["d1", "d2"], defdom="d2", parsers=[
+        P("root", binds=[H("delayed", "b", 50, reads=["config", "domain"]), H("final", "f1", reads=["b"])], opts=["x"]),
+        P("s1", sub=True, binds=[H("raw", "e", 20), H("main", "ms1", reads=["e"])], opts=["e"]),
+        P("s2", sub=True, binds=[H("raw", "e", 20), H("delayed", "g", 25, reads=["b", "e"]), H("main", "ms2", reads=["e"])])]),
+     [[dict(sub="s2", dom="d2")], [dict(sub="s1", sopts=[["e", "ve"]]), dict(sub="s2")]]),
+]
 
 
 def random_call(r_, uni):
@@ -800,12 +855,12 @@ def run(ck):
         time.sleep(0.2)
 
     # 1. model checking of the design + vacuity guards (run while the real code is being driven)
-    mc_plan = [("tiny", 3), ("second", ck.pick(1, 2))]
+    mc_plan = [("tiny", 3), ("second", ck.pick(1, 2))] + ck.pick([], [("main", 1)])
     for name, maxcalls in mc_plan:
         job(f"MC:Commandline_MC {name} MaxCalls={maxcalls}", "Commandline_MC", mc_cfg("Spec", maxcalls),
             {"UNI_FILE": files[name]}, workers=ck.pick(2, 4), timeout=ck.pick(600, 2400))
     for name, switch, inv in GUARDS:
-        job(f"Guard:{switch}=FALSE {name}", "Commandline_MC", mc_cfg("Spec", 2, off=(switch,), only=inv),
+        job(f"Guard:{switch}=FALSE {name}", "Commandline_MC", mc_cfg("Spec", 2 if switch == "PreWiped" else 1, off=(switch,), only=inv),
             {"UNI_FILE": files[name]}, workers=1, timeout=600)
     # 2. spec -> code
     D = 3
@@ -819,6 +874,7 @@ def run(ck):
     unis, events, tid = [], [], 0
     for _u in range(ck.pick(12, 60)):
         uni = random_universe(r_)
+        check_universe(uni)
         unis.append(uni)
         for _t in range(ck.pick(5, 8)):
             w = World(uni)
@@ -829,6 +885,17 @@ def run(ck):
             ck.count()
             if nontrivial(calls, events[n0:]):
                 ck.nontriv(("rnd", json.dumps(uni, sort_keys=True), json.dumps(calls, sort_keys=True)))
+    for uni, hists in FIXED:
+        check_universe(uni)
+        unis.append(uni)
+        for calls in hists:
+            w = World(uni)
+            tid += 1
+            n0 = len(events)
+            run_history(w, tid, len(unis), calls, events)
+            ck.count()
+            if nontrivial(calls, events[n0:]):
+                ck.nontriv(("fixed", json.dumps(uni, sort_keys=True), json.dumps(calls, sort_keys=True)))
     ck.sample(dict(direction="code->spec", argv=events[0]["argv"], log=[x["h"] for x in events[0]["log"]], out=events[0]["out"]))
     tid = smoke(ck, unis, events, tid)
     ck.sample(dict(direction="smoke", argv=events[-6]["argv"], log=[x["h"] for x in events[-6]["log"]]))
